@@ -216,6 +216,13 @@ example : outs (shLockStep 2 (fun k => k.bits % 3)) ShLockSt.empty
      .acq 3 [⟨.str, 0, "6b", 1⟩] false, .rel 2 [⟨.str, 0, "6a", 2⟩] false, .rel 0 [⟨.str, 0, "6b", 1⟩] false] =
     [.granted, .granted, .granted, .parked, .released none, .released (some 3)] := by decide
 
+/-- a request whose context is already done: granted on a free key, refused (without queueing) on a held one —
+the same on the sharded and the single table (covered by `sharded_locks_equiv`, which quantifies over `acqDone` too) -/
+example : outs (shLockStep 10 (fun k => k.bits % 3)) ShLockSt.empty
+    [.acqDone 0 [⟨.str, 0, "6b", 1⟩] true, .acqDone 1 [⟨.str, 0, "6b", 1⟩] false, .acqDone 1 [⟨.str, 0, "6a", 2⟩] false,
+     .rel 0 [⟨.str, 0, "6b", 1⟩] true, .acqDone 1 [⟨.str, 0, "6b", 1⟩] false] =
+    [.granted, .refused, .granted, .released none, .granted] := by decide
+
 /-! ### what the unproved configurations do -/
 
 /-- without the last-boundary fix-up, 7 shards: hash 2^64−1 lies above `y·7 = 2^64−2`, the search returns 7,
